@@ -87,6 +87,10 @@ def run_shard_inproc(pid, spec):
     acc = Acc()
     t0 = time.time()
     err = None
+    if not __debug__:
+        acc.count("shards_run_under_python_O")
+    if time.timezone != 0 or time.localtime().tm_gmtoff != 0:
+        acc.count("shards_run_outside_UTC")
     try:
         mod.run_shard(spec, acc)
     except Exception:
@@ -104,8 +108,14 @@ def _spawn(pid, spec, outpath):
     envv["PYTHONHASHSEED"] = "0"
     envv["PYTHONDONTWRITEBYTECODE"] = "1"
     envv.pop("PYTHONPATH", None)
-    cmd = [sys.executable, "-m", "pv.run", "--shard", pid, "--spec", json.dumps(spec),
-           "--out", outpath]
+    if spec.get("tz"):
+        envv["TZ"] = spec["tz"]     # the shard's process runs in that time zone
+    cmd = [sys.executable]
+    if spec.get("python_O"):
+        # some shards run the code under test with assertions stripped (python -O), as
+        # an operator may run it: a check that lives in an `assert` must not be the only one
+        cmd.append("-O")
+    cmd += ["-m", "pv.run", "--shard", pid, "--spec", json.dumps(spec), "--out", outpath]
     return subprocess.Popen(cmd, cwd=VERIF, env=envv, stdout=subprocess.PIPE,
                             stderr=subprocess.STDOUT)
 
